@@ -160,17 +160,17 @@ func (r Result) String() string { return [...]string{"unsat", "sat", "unknown"}[
 
 // Solver drives one SMT solver process over stdin/stdout.
 type Solver struct {
-	Name     string
-	cmd      *exec.Cmd
-	in       io.WriteCloser
-	out      *bufio.Reader
-	declared map[string]bool
-	Queries  int
-	Time     time.Duration
-	Errors   int
-	LastErr  string
+	Name      string
+	cmd       *exec.Cmd
+	in        io.WriteCloser
+	out       *bufio.Reader
+	declared  map[string]bool
+	Queries   int
+	Time      time.Duration
+	Errors    int
+	LastErr   string
 	TimeoutMs int
-	Log      io.Writer // optional transcript
+	Log       io.Writer // optional transcript
 }
 
 // SolverCmd returns argv for a named solver.
